@@ -94,10 +94,15 @@ def beBytes : Nat → Nat → Bytes
 /-- one row: (type, field 2, field 3) -/
 abbrev SRow := Nat × Nat × Nat
 
-/-- a row is well formed for the widths: each field fits its width and 32 bits; with `w1 = 0`
-the type is the default 1; generation/index fields of types 1 and 2 fit 16 bits -/
+/-- a row is well formed for the widths: each field fits its width (a width may exceed 4 bytes)
+and 32 bits; with `w1 = 0` the type is the default 1; the third field fits 16 bits; the type is
+one of the three DEFINED types 0, 1, 2.
+DEVIATION (finding F-C02-b): Table 18 says "any other value shall be interpreted as a reference
+to the null object"; lopdf reads only the type field of such a row and NOT its other two
+fields, so every later row is misread (`unknownType_desync` in Thm/C02XrefStm.lean). Rows of an
+undefined type are therefore outside the relation. -/
 def RowOk (w1 w2 w3 : Nat) (r : SRow) : Prop :=
-  (if w1 = 0 then r.1 = 1 else r.1 < 256 ^ w1 ∧ r.1 < 4294967296) ∧
+  (if w1 = 0 then r.1 = 1 else r.1 < 256 ^ w1 ∧ r.1 ≤ 2) ∧
   r.2.1 < 256 ^ w2 ∧ r.2.1 < 4294967296 ∧ r.2.2 < 256 ^ w3 ∧ r.2.2 < 65536
 
 def encodeRow (w1 w2 w3 : Nat) (r : SRow) : Bytes :=
@@ -112,9 +117,11 @@ abbrev SSub := Nat × List SRow
 def encodeSubs (w1 w2 w3 : Nat) (subs : List SSub) : Bytes :=
   subs.flatMap fun s => encodeRows w1 w2 w3 s.2
 
-/-- the `Index` array of the subsections -/
-def indexOf (subs : List SSub) : List Obj :=
-  subs.flatMap fun s => [Obj.int s.1, Obj.int s.2.length]
+/-- the `Index` array of the subsections: pairs (first number, count) -/
+def indexInts (subs : List SSub) : List Int :=
+  subs.flatMap fun s => [(s.1 : Int), (s.2.length : Int)]
+
+def indexOf (subs : List SSub) : List Obj := (indexInts subs).map Obj.int
 
 /-- the entry a row denotes (§7.5.8.3 Table 18): type 0 = free (nothing to load), type 1 =
 object at an offset, type 2 = object in an object stream, any other type = null reference -/
@@ -127,9 +134,17 @@ def numberedRows : Nat → List SRow → List (Nat × SRow)
   | _, [] => []
   | n, e :: es => (n, e) :: numberedRows (n + 1) es
 
+def rowBindings (start : Nat) (rows : List SRow) : List (Nat × XEntry) :=
+  (numberedRows start rows).filterMap fun (p : Nat × SRow) => (rowEntry p.2).map fun e => (p.1, e)
+
 def streamBindings (subs : List SSub) : List (Nat × XEntry) :=
-  subs.flatMap fun (s : SSub) =>
-    (numberedRows s.1 s.2).filterMap fun (p : Nat × SRow) => (rowEntry p.2).map fun e => (p.1, e)
+  subs.flatMap fun (s : SSub) => rowBindings s.1 s.2
+
+/-- well-formed subsections for the widths: rows fit, object numbers below 2^32 -/
+def SubsOk (w1 w2 w3 : Nat) (subs : List SSub) : Prop :=
+  ∀ s ∈ subs, (∀ r ∈ s.2, RowOk w1 w2 w3 r) ∧ s.1 + s.2.length ≤ 4294967296
+
+def totalRows (subs : List SSub) : Nat := (subs.map fun s => s.2.length).sum
 
 /-- the map a cross-reference stream denotes -/
 def streamTableOf (subs : List SSub) : XTable := bindAll [] (streamBindings subs)
